@@ -16,3 +16,8 @@ open Verif.Props.C12
 #print axioms reader_progress
 #print axioms wf_generated
 #print axioms C12_main
+#print axioms history_results_stable
+#print axioms pooled_alias_counterexample
+#print axioms uncopied_input_counterexample
+#print axioms ownership_generated
+#print axioms C12_ownership
